@@ -113,9 +113,7 @@ def build_probes(rng, p, res, oracle, per_key=3, flavours=("string", "display", 
                     def env_for(flavour):
                         def comp(k, inner):
                             t = comp_tags.get(k, "?")
-                            if flavour == "view":
-                                return f'<span data-c="{t}">{inner}</span>'
-                            return f"<c{t}>{inner}</c{t}>"
+                            return f'<span data-c="{t}">{inner}</span>'    # same markup in every flavour
 
                         def cat(rule, c, l=eff):
                             key = ("u:%d" % c) if c.denominator == 1 and c >= 0 else (("i:%d" % c) if c.denominator == 1 else "f:" + str(float(c)))
@@ -133,7 +131,7 @@ def build_probes(rng, p, res, oracle, per_key=3, flavours=("string", "display", 
                             if fl == "view":
                                 comps_rs.append(f'<{short}> = |children: ChildrenFn| view! {{ <span data-c="{tag}">{{children()}}</span> }}')
                             else:
-                                comps_rs.append(f'<{short}> = "c{tag}"')
+                                comps_rs.append(f'<{short}> = leptos_i18n::display::DisplayComp::new("span", &[("data-c", "{tag}")])')
                         vargs = [f"{n} = move || {v}" if (is_count and fl == "view") else f"{n} = {v}" for n, v, is_count in args_rs]
                         allargs = ", ".join([loc_rs, key_rs] + vargs + comps_rs)
                         rest_args = ", ".join(vargs + comps_rs)
@@ -161,10 +159,10 @@ def build_probes(rng, p, res, oracle, per_key=3, flavours=("string", "display", 
                                 for seg in pre:
                                     scope = f"scope_i18n!({scope}, {seg})"
                                 inner = ", ".join(["__c", ".".join(post)] + vargs + comps_rs)
-                                expr = f"{{ __i18n.set_locale_untracked({loc_rs}); let __c = {scope}; t_string!({inner}).to_string() }}"
+                                expr = f"with_ctx({loc_rs}, |__i18n| {{ let __c = {scope}; t_string!({inner}).to_string() }})"
                             else:
                                 inner = ", ".join(["__i18n", key_rs] + vargs + comps_rs)
-                                expr = f"{{ __i18n.set_locale_untracked({loc_rs}); {mac}({inner}).to_string() }}"
+                                expr = f"with_ctx({loc_rs}, |__i18n| {mac}({inner}).to_string())"
                         elif fl == "string":
                             expr = f"td_string!({allargs}).to_string()"
                         elif fl == "display":
@@ -182,7 +180,25 @@ use i18n::*;
 use leptos::prelude::*;
 
 fn render<T: IntoView>(view: T) -> String {
-    view.into_view().to_html()
+    // render in an owner of its own so that disposing the view leaves the context's signals alone
+    let o = Owner::new();
+    o.with(|| view.into_view().to_html())
+}
+
+/// a context of its own per call, in a root owner that is never disposed (the context's effects may still run later)
+fn with_ctx<R>(l: Locale, f: impl FnOnce(leptos_i18n::I18nContext<Locale>) -> R) -> R {
+    let owner = Owner::new_root(None);
+    let r = owner.with(|| {
+        let i18n = leptos_i18n::context::init_i18n_context_with_options::<Locale>(
+            leptos_i18n::context::I18nContextOptions::<Locale>::default()
+                .enable_cookie(false)
+                .ssr_lang_header_getter(leptos_i18n::context::UseLocalesOptions::default().ssr_lang_header_getter(|| None)),
+        );
+        i18n.set_locale_untracked(l);
+        f(i18n)
+    });
+    std::mem::forget(owner);
+    r
 }
 
 fn emit(id: usize, out: String) {
@@ -190,15 +206,9 @@ fn emit(id: usize, out: String) {
 }
 
 fn main() {
-    let owner = Owner::new();
+    let owner = Owner::new_root(None);
     owner.set();
     let _ = any_spawner::Executor::init_futures_executor();
-    #[allow(unused_variables)]
-    let __i18n = leptos_i18n::context::init_i18n_context_with_options::<Locale>(
-        leptos_i18n::context::I18nContextOptions::<Locale>::default()
-            .enable_cookie(false)
-            .ssr_lang_header_getter(leptos_i18n::context::UseLocalesOptions::default().ssr_lang_header_getter(|| None)),
-    );
 %s
 }
 '''
